@@ -344,9 +344,15 @@ def run(args) -> int:
                     raise HarnessError(f"C19 child: {v} argv={rn['argv']} program={rn['program']} detail={ev.get('detail')} stderr={ev.get('stderr_tail')}")
                 if v.startswith("violation"):
                     bad.append((job, rn, ev))
-        for n, (job, rn, ev) in enumerate(bad[:3]):
+        seen_kinds = set()
+        for job, rn, ev in bad:
+            key = (ev["verdict"], rn["program"], rn["acls"].split("|")[0])
+            if key in seen_kinds or len(seen_kinds) >= 3:
+                continue  # one replay per distinct (verdict, program, option class); at most three
+            seen_kinds.add(key)
             doc = minimise(pool, seed, job, rn, ev, progs)
-            violations.append({"replay": common.write_replay("C19", seed, n, doc), "kind": ev["verdict"]})
+            doc["same_verdict_in_this_run"] = sum(1 for _, _, e in bad if e["verdict"] == ev["verdict"])
+            violations.append({"replay": common.write_replay("C19", seed, len(violations), doc), "kind": ev["verdict"]})
         wall = timer.wall()
         sample = next((r for r in runs if r.get("fault")), runs[-1])
         coverage = {
@@ -415,14 +421,19 @@ def minimise(pool, seed, job, rn, ev, progs) -> dict:
     """shrink schedule, world, program, options while the same violation class persists"""
     from sim.minimize import ddmin
 
+    import time as _time
+
     kind = ev["verdict"]
     world = dict(job["world"])
     rn = dict(rn)
     progs = dict(progs)
     probes = 0
+    give_up = _time.time() + 150  # wall budget of the minimiser only; never enters a simulated decision
 
     def same(r, w=None, p=None):
         nonlocal probes
+        if _time.time() > give_up:
+            return False
         probes += 1
         e = _one(pool, seed, w or world, p or progs, r)
         return e is not None and e["verdict"] == kind
@@ -472,7 +483,21 @@ def minimise(pool, seed, job, rn, ev, progs) -> dict:
             if len(stmts) > 1 and not rn["chunks"]:
 
                 def test(cands):
-                    return [same(rn, p={rn["program"]: "\n".join(c) + "\n"}) for c in cands]
+                    # all candidates of one ddmin round in parallel, bounded total work
+                    nonlocal probes
+                    if probes > 250 or _time.time() > give_up:
+                        return [False] * len(cands)
+                    cands = list(cands)
+                    probes += len(cands)
+                    jobs = [
+                        {"seed": seed, "module": "sim.cliworker", "world": world, "programs": {rn["program"]: "\n".join(c) + "\n"}, "runs": [rn], "wall_s": 900}
+                        for c in cands
+                    ]
+                    out = []
+                    for r in pool.run(jobs):
+                        evs = [e for e in r["events"] if e.get("op") == "run"]
+                        out.append(bool(r["status"] == "ok" and evs and evs[0]["verdict"] == kind))
+                    return out
 
                 if test([stmts])[0]:
                     stmts = ddmin(stmts, test)
